@@ -1,5 +1,6 @@
 """Orchestration core: TLC runs, harness runs, evidence, findings.  Python stdlib only."""
-import json, os, re, shutil, subprocess, sys, time, hashlib, glob
+import json, os, re, shutil, subprocess, sys, time, hashlib, glob, threading
+from concurrent.futures import ThreadPoolExecutor
 
 VERIF = os.path.dirname(os.path.dirname(os.path.abspath(__file__)))
 SPEC = os.path.join(VERIF, "spec")
@@ -67,6 +68,7 @@ class Ctx:
         self.required = {}        # vacuity: class name -> minimal count
         self.findings = load_findings()
         self.nseq = 0
+        self.lock = threading.RLock()
 
     # ------------------------------------------------------------------ TLC
     def tlc(self, module, constants, invariants=(), spec="Spec", constraint=None, workers=8, timeout=900,
@@ -74,9 +76,11 @@ class Ctx:
             view=None, label=None, trace_run=False):
         """Runs TLC on spec/<module>.tla with a generated config.  Returns a dict of statistics.
         Lines printed as <<"CASE", json>> are written (deduplicated) to emit_to as ndjson."""
-        self.nseq += 1
+        with self.lock:
+            self.nseq += 1
+            seq = self.nseq
         label = label or module
-        cfgname = "%s_%02d.cfg" % (label, self.nseq)
+        cfgname = "%s_%02d.cfg" % (label, seq)
         cfg = []
         if constants:
             cfg.append("CONSTANTS " + " ".join("%s = %s" % kv for kv in constants.items()))
@@ -96,7 +100,7 @@ class Ctx:
             cfg.append(extra_cfg)
         cfgpath = os.path.join(self.work, cfgname)
         open(cfgpath, "w").write("\n".join(cfg) + "\n")
-        meta = os.path.join(self.work, "md_%02d" % self.nseq)
+        meta = os.path.join(self.work, "md_%02d" % seq)
         cmd = ["timeout", str(timeout), "tlc", "-workers", str(workers), "-metadir", meta, "-cleanup",
                "-noGenerateSpecTE", "-coverage", "1", "-config", cfgpath]
         if simulate:
@@ -106,7 +110,7 @@ class Ctx:
         if env_extra:
             env.update(env_extra)
         t0 = time.time()
-        outpath = os.path.join(self.work, "tlc_%02d.out" % self.nseq)
+        outpath = os.path.join(self.work, "tlc_%02d.out" % seq)
         with open(outpath, "w") as fo:
             p = subprocess.run(cmd, cwd=self.work, env=env, stdout=fo, stderr=subprocess.STDOUT, text=True)
         out = open(outpath, errors="replace").read()
@@ -151,10 +155,11 @@ class Ctx:
                         f.write(js + "\n")
                         n += 1
             st["cases"] = n
-        if "generated" in st and not trace_run:
-            self.states += st["distinct"]
-            self.transitions += st["generated"]
-        self.tlc_runs.append({k: v for k, v in st.items() if k not in ("out", "counterexample")})
+        with self.lock:
+            if "generated" in st and not trace_run:
+                self.states += st["distinct"]
+                self.transitions += st["generated"]
+            self.tlc_runs.append({k: v for k, v in st.items() if k not in ("out", "counterexample")})
         return st
 
     # ------------------------------------------------------------------ harness
@@ -225,6 +230,16 @@ class Ctx:
         st = self.tlc(module, constants or {}, invariants=list(invariants), postcondition="Accepted", workers=1, timeout=timeout,
                       env_extra={"TRACE": trace}, label=module, trace_run=True)
         out = open(st["out"], errors="replace").read()
+        with self.lock:
+            return self._account_trace(module, trace, what, n_events, st, out)
+
+    def validate_traces(self, jobs, par=5):
+        """Validates several recorded traces concurrently (one single-worker TLC process each).  jobs: dicts of the keyword
+        arguments of validate_trace."""
+        with ThreadPoolExecutor(max_workers=par) as ex:
+            return list(ex.map(lambda j: self.validate_trace(**j), jobs))
+
+    def _account_trace(self, module, trace, what, n_events, st, out):
         m = re.search(r'<<"CONFIRMED", (\d+)>>', out)
         if m:
             self.classes["trace_confirmations"] = self.classes.get("trace_confirmations", 0) + int(m.group(1))
@@ -317,6 +332,52 @@ class Ctx:
         if rc != 1:
             shutil.rmtree(self.work, ignore_errors=True)
         return rc
+
+
+
+# ---------------------------------------------------------------------- limb re-encoding of exact traces (V3)
+BIG_SCALARS = ("state", "c", "p", "lower", "range", "point", "sitW", "hc", "hr")
+BIG_ARRAYS = ("words", "bulk", "bulk_tail", "view_tail", "words_tail", "comp_tail", "rem_tail")
+
+
+def to_limbs(v, lb):
+    """little-endian limbs of lb bits, without leading zero limbs (0 -> []): the number format of spec/Big.tla"""
+    n = int(v)
+    out = []
+    while n:
+        out.append(n & ((1 << lb) - 1))
+        n >>= lb
+    return out
+
+
+def limbify(src, dst, lb, max_events=None):
+    """Re-encodes an exact event trace (numbers as JSON integers / decimal strings) for the Big* trace specifications: every
+    field that can exceed TLC's 32-bit integers becomes a limb sequence; a full `bulk` is replaced by its length and last three
+    words (the specification carries the full bulk itself), and so are the words of export events.  Pure re-encoding: no
+    field is computed, guessed or dropped other than those prefixes."""
+    n = 0
+    with open(src) as f, open(dst, "w") as g:
+        for line in f:
+            e = json.loads(line)
+            o = {}
+            for k, v in e.items():
+                if k in BIG_SCALARS:
+                    o[k] = to_limbs(v, lb)
+                elif k == "bulk":
+                    o["bulk_len"] = len(v)
+                    o["bulk_tail"] = [to_limbs(x, lb) for x in v[-3:]]
+                elif k == "words" and e.get("ev") in ("export", "export_binary"):
+                    o["words_len"] = len(v)
+                    o["words_tail"] = [to_limbs(x, lb) for x in v[-3:]]
+                elif k in BIG_ARRAYS:
+                    o[k] = [to_limbs(x, lb) for x in v]
+                else:
+                    o[k] = v
+            g.write(json.dumps(o) + "\n")
+            n += 1
+            if max_events and n >= max_events:
+                break
+    return n
 
 
 def extract_trace(out):
